@@ -2,6 +2,7 @@
 (which outstanding reply is delivered at which loop iteration)."""
 from __future__ import annotations
 
+import asyncio
 import random
 from typing import Optional
 
@@ -304,7 +305,12 @@ class AgentBehaviour(RandomBehaviour):
         for ill in self.illegal:
             if ill["sid"] == p.sid and ill["k"] == p.k:
                 if ill["f"] == "set_data":
-                    rep.calls.append(("set_data", {f"{p.sid}.E0": {f"{ill['target']}.E0": {ill.get("attr", "i"): "illegal"}}}))
+                    dests = {f"{ill['target']}.E0": {ill.get("attr", "i"): "illegal"}}
+                    if ill.get("mixed") and a:
+                        # ONE call that names a permitted destination as well, before or after the forbidden one
+                        legal = {f"{a['target']}.{a.get('eid', 'E0')}": {a["attr"]: tok(p.sid, p.k, "sdm")}}
+                        dests = {**legal, **dests} if ill["mixed"] == "legal_first" else {**dests, **legal}
+                    rep.calls.append(("set_data", {f"{p.sid}.E0": dests}))
                 else:
                     rep.calls.append(("get_data", {f"{ill['target']}.E0": [ill.get("attr", "p")]}))
         return rep
@@ -345,7 +351,9 @@ class ModelBehaviour(RandomBehaviour):
 
 
 EXC_TYPES = {"RuntimeError": RuntimeError, "StopIteration": StopIteration, "KeyError": KeyError, "ValueError": ValueError,
-             "ZeroDivisionError": ZeroDivisionError, "StopAsyncIteration": StopAsyncIteration, "AttributeError": AttributeError}
+             "ZeroDivisionError": ZeroDivisionError, "StopAsyncIteration": StopAsyncIteration, "AttributeError": AttributeError,
+             # (a handler that awaits something cancelled fails with CancelledError - a BaseException since 3.8, and the one asyncio itself treats specially)
+             "CancelledError": asyncio.CancelledError, "TimeoutError": asyncio.TimeoutError}
 
 
 def make_exc(name, msg):
